@@ -121,7 +121,7 @@ Map2_1 == << P4(Rw("movups", <<"Vps","Wps">>), Rw("movupd", <<"Vpd","Wpd">>), Rw
                 Rw("movshdup", <<"Vx","Wx">>), NONE),
              N6(Rw("movhps", <<"Mq","Vq">>), Rw("movhpd", <<"Mq","Vq">>)),
              Gp("16", <<>>), NONE, NONE, NONE, NONE, NONE,
-             P4(NONE, NONE, MOD(NONE, RM(<<NONE,NONE,Rw("endbr64", <<>>),Rw("endbr32", <<>>),NONE,NONE,NONE,NONE>>)), NONE),
+             P4(NONE, NONE, Gp("1E", <<>>), NONE),
              Gp("NOP", <<"Ev">>) >>
 Map2_2 == << Rw("mov", <<"Rd","Cd">>), Rw("mov", <<"Rd","Dd">>), Rw("mov", <<"Cd","Rd">>), Rw("mov", <<"Dd","Rd">>),
              NONE, NONE, NONE, NONE,
@@ -263,7 +263,8 @@ Groups == [
             Own("smsw", <<"RvMw">>), NONE, Own("lmsw", <<"Ew">>),
             MOD(Own("invlpg", <<"Mb">>), RM(<<Ra("swapgs", <<>>, {"o64"}), S0("rdtscp"), NONE, NONE, NONE, NONE, NONE, NONE>>)) >>,
   g8  |-> <<NONE, NONE, NONE, NONE, S0("bt"), SL("bts"), SL("btr"), SL("btc")>>,
-  g9  |-> <<NONE, MOD(OwnA("cmpxchg8b", <<"Mq">>, L), NONE), NONE, NONE, NONE, NONE,
+  g9  |-> <<NONE, MOD(OwnA("cmpxchg8b", <<"Mq">>, L), NONE), NONE, MOD(NP(Own("xrstors", <<"M">>)), NONE),
+            MOD(NP(Own("xsavec", <<"M">>)), NONE), MOD(NP(Own("xsaves", <<"M">>)), NONE),
             MOD(P4(Own("vmptrld", <<"Mq">>), Own("vmclear", <<"Mq">>), Own("vmxon", <<"Mq">>), NONE), Own("rdrand", <<"Rv">>)),
             MOD(NP(Own("vmptrst", <<"Mq">>)), Own("rdseed", <<"Rv">>)) >>,
   g11 |-> <<S0("mov"), NONE, NONE, NONE, NONE, NONE, NONE, NONE>>,
@@ -278,16 +279,19 @@ Groups == [
   g15 |-> <<MOD(NP(Own("fxsave", <<"Mfx">>)), NONE), MOD(NP(Own("fxrstor", <<"Mfx">>)), NONE),
             MOD(NP(Own("ldmxcsr", <<"Md">>)), NONE), MOD(NP(Own("stmxcsr", <<"Md">>)), NONE),
             MOD(NP(Own("xsave", <<"M">>)), NONE), MOD(NP(Own("xrstor", <<"M">>)), NP(S0("lfence"))),
-            MOD(NP(Own("xsaveopt", <<"M">>)), NP(S0("mfence"))), MOD(NP(Own("clflush", <<"Mb">>)), NP(S0("sfence"))) >>,
+            MOD(N6(Own("xsaveopt", <<"M">>), Own("clwb", <<"Mb">>)), NP(S0("mfence"))),
+            MOD(N6(Own("clflush", <<"Mb">>), Own("clflushopt", <<"Mb">>)), NP(S0("sfence"))) >>,
   g16 |-> <<MOD(Own("prefetchnta", <<"Mb">>), NONE), MOD(Own("prefetcht0", <<"Mb">>), NONE),
             MOD(Own("prefetcht1", <<"Mb">>), NONE), MOD(Own("prefetcht2", <<"Mb">>), NONE), NONE, NONE, NONE, NONE>>,
   gP  |-> <<NONE, MOD(Own("prefetchw", <<"Mb">>), NONE), MOD(Own("prefetchwt1", <<"Mb">>), NONE), NONE, NONE, NONE, NONE, NONE>>,
+  g1E |-> <<NONE, NONE, NONE, NONE, NONE, NONE, NONE,
+            MOD(NONE, RM(<<NONE, NONE, S0("endbr64"), S0("endbr32"), NONE, NONE, NONE, NONE>>))>>,
   gNOP |-> <<S0("nop"), NONE, NONE, NONE, NONE, NONE, NONE, NONE>> ]
-GroupNames == {"1","1A","2","3b","3v","4","5","6","7","8","9","11","12","13","14","15","16","P","NOP"}
+GroupNames == {"1","1A","2","3b","3v","4","5","6","7","8","9","11","12","13","14","15","16","P","NOP","1E"}
 GroupOf(n) == CASE n = "1" -> Groups.g1 [] n = "1A" -> Groups.g1A [] n = "2" -> Groups.g2 [] n = "3b" -> Groups.g3b
    [] n = "3v" -> Groups.g3v [] n = "4" -> Groups.g4 [] n = "5" -> Groups.g5 [] n = "6" -> Groups.g6 [] n = "7" -> Groups.g7
    [] n = "8" -> Groups.g8 [] n = "9" -> Groups.g9 [] n = "11" -> Groups.g11 [] n = "12" -> Groups.g12 [] n = "13" -> Groups.g13
-   [] n = "14" -> Groups.g14 [] n = "15" -> Groups.g15 [] n = "16" -> Groups.g16 [] n = "P" -> Groups.gP [] n = "NOP" -> Groups.gNOP
+   [] n = "14" -> Groups.g14 [] n = "15" -> Groups.g15 [] n = "16" -> Groups.g16 [] n = "P" -> Groups.gP [] n = "NOP" -> Groups.gNOP [] n = "1E" -> Groups.g1E
 
 \* ------------------------------------------------------------------ Tables A-7 .. A-22 (x87 escape)
 \* memory forms (mod # 3), indexed by ModRM.reg; register forms (mod = 3) indexed by reg, each either one
